@@ -65,8 +65,44 @@ Proof.
   injection H as <- _.
   apply (proj1 (sort_paths_in _ _)) in Hin. apply filter_In in Hin. destruct Hin as [Hk Hf].
   split; [exact Hk|].
+  apply andb_prop in Hf. destruct Hf as [Hf _].
   apply andb_prop in Hf. destruct Hf as [Hf He]. apply andb_prop in Hf. destruct Hf as [Hl Hs].
   apply Nat.leb_le in Hl. apply pre_suf_decomp; assumption.
+Qed.
+
+(* ... and they are entries of the directory of the prefix itself: no separator after the prefix *)
+Lemma io_list_ok_in_dir pre suf st paths st' q :
+  io_list pre suf st = (Ok paths, st') -> In q paths -> ~ In SLASH (skipn (length pre) q).
+Proof.
+  unfold io_list. intros H Hin.
+  destruct (sched_lookup (io_sched st) (io_n st)) as [f|]; [discriminate H|].
+  injection H as <- _.
+  apply (proj1 (sort_paths_in _ _)) in Hin. apply filter_In in Hin. destruct Hin as [_ Hf].
+  apply andb_prop in Hf. destruct Hf as [_ Hn]. apply no_slash_spec. exact Hn.
+Qed.
+
+(* the listing of a fault-free state, member by member: the keys <pre><mid><suf> with no separator after <pre> *)
+Lemma firstn_length_app_l {A} (a b : list A) : firstn (length a) (a ++ b) = a.
+Proof. induction a as [|x a IH]; [reflexivity|]. cbn [length app firstn]. rewrite IH. reflexivity. Qed.
+
+Lemma io_list_members pre suf fs paths st' :
+  io_list pre suf (io_init fs []) = (Ok paths, st') ->
+  forall q, In q paths <-> In q (map fst fs) /\ exists mid, q = pre ++ mid ++ suf /\ ~ In SLASH (mid ++ suf).
+Proof.
+  intros H q. split.
+  - intros Hin. destruct (io_list_ok_in _ _ _ _ _ q H Hin) as [Hk (mid & Hm)].
+    pose proof (io_list_ok_in_dir _ _ _ _ _ q H Hin) as Hn.
+    split; [exact Hk|]. exists mid. split; [exact Hm|].
+    rewrite Hm, skipn_length_app in Hn. exact Hn.
+  - intros [Hk (mid & -> & Hn)]. unfold io_list in H. cbn [io_init io_sched io_n sched_lookup io_fs] in H.
+    injection H as <- _. apply sort_paths_in. apply filter_In. split; [exact Hk|].
+    apply andb_true_iff. split; [apply andb_true_iff; split; [apply andb_true_iff; split|]|].
+    + apply Nat.leb_le. rewrite !app_length. lia.
+    + unfold starts_with. rewrite firstn_length_app_l. apply str_eqb_refl.
+    + unfold ends_with. rewrite app_assoc, (app_length (pre ++ mid) suf).
+      replace (length (pre ++ mid) + length suf - length suf)%nat with (length (pre ++ mid)) by lia.
+      rewrite skipn_length_app. apply str_eqb_refl.
+    + rewrite skipn_length_app. apply no_slash_spec. exact Hn.
 Qed.
 
 (** * the event classes *)
@@ -650,13 +686,18 @@ Module TGExample.
       EvWrite (bs "a") [1; 2; 3; 4; 5]%N true ].
   Proof. vm_compute. split; reflexivity. Qed.
 
-  (* the listing of the MODEL matches the prefix and the suffix on whole path strings: a key with a separator in
-     the middle part - a file in a subdirectory whose name starts with "<index base>." - is returned and read *)
+  (* the listing returns entries of the index file's OWN directory: a key with a separator after the prefix - a file
+     in a subdirectory whose name starts with "<index base>." - is neither listed nor read (the run makes the same
+     calls as without it); a file of that directory with an odd name is listed and read *)
   Definition fs_sub : list (list N * bytes) := fs2 ++ [(bs "/w/o.d/x.par2", [])].
+  Definition fs_odd : list (list N * bytes) := fs2 ++ [(bs "/w/o.d;x.par2", [])].
   Example tg_listing_subdirectory :
-    In (EvRead (bs "/w/o.d/x.par2") true) (io_trace (snd (par2_verify toy_md5 ix (io_init fs_sub [])))) /\
-    dir (bs "/w/o.d/x.par2") = bs "/w/o.d" /\ dir ix = bs "/w".
-  Proof. vm_compute. split; [|split; reflexivity]. right. right. right. right. left. reflexivity. Qed.
+    io_trace (snd (par2_verify toy_md5 ix (io_init fs_sub []))) = io_trace (snd (par2_verify toy_md5 ix (io_init fs2 []))) /\
+    fst (io_list (bs "/w/o.") (bs ".par2") (io_init fs_sub [])) = Ok [bs "/w/o.vol00+01.par2"; bs "/w/o.vol01+01.par2"] /\
+    dir (bs "/w/o.d/x.par2") = bs "/w/o.d" /\ dir ix = bs "/w" /\
+    In (EvRead (bs "/w/o.d;x.par2") true) (io_trace (snd (par2_verify toy_md5 ix (io_init fs_odd [])))) /\
+    dir (bs "/w/o.d;x.par2") = bs "/w".
+  Proof. vm_compute. repeat split; try reflexivity. right. right. right. right. left. reflexivity. Qed.
 
   (* a file description whose name climbs out is not loaded at all: checkFilename rejects it *)
   Example tg_rejected_names :
@@ -666,6 +707,7 @@ Module TGExample.
   Proof. vm_compute. repeat split; reflexivity. Qed.
 End TGExample.
 
+Print Assumptions io_list_members.
 Print Assumptions load_trace_shape.
 Print Assumptions repair_trace_shape.
 Print Assumptions repair_write_targets.
